@@ -75,8 +75,10 @@ TCfg == /\ IsEvent("Cfg")
         /\ LET o == JOp(Trace[l].op)
                refused == Trace[l].res \notin {"ok", "panic"}
            IN
-             /\ kf.dead \/ Assert(Valid(P, o), <<"schedule holds an operation the model considers invalid", o>>)
-             /\ Trace[l].res \in {"ok", "panic"} \/ kf.dead \/ MustRefuse(P, o)
+             \* (IF, not \/: TLC splits a disjunction of an action into sub-actions and would evaluate the Assert)
+             /\ IF kf.dead THEN TRUE
+                ELSE Assert(Valid(P, o), <<"schedule holds an operation the model considers invalid", o>>)
+             /\ IF kf.dead \/ MustRefuse(P, o) THEN TRUE ELSE Trace[l].res \in {"ok", "panic"}
              /\ P' = IF kf.dead /\ ~Valid(P, o) THEN P
                      \* KF-C10-delpol-assigned: the call that must be refused was accepted; the policy
                      \* is gone but the assignment still lists it (judged by C10_ReadBack_NoDangling)
@@ -93,7 +95,7 @@ TEval == /\ IsEvent("Eval")
                      e2 == Eval(P, o.route, o.d2, o.p2, CodeAmb(o.d2))
                  IN /\ exp' = [e1 |-> e1, e2 |-> e2]
                     \* non-trivial: at least one statement applied to the route in one of the evaluations
-                    /\ NoteIf(e1.hits + e2.hits >= 1, <<o, Flat(P, o.d1), Flat(P, o.d2)>>)
+                    /\ NoteIf(~kf.dead /\ e1.hits + e2.hits >= 1, <<o, Flat(P, o.d1), Flat(P, o.d2)>>)
             ELSE exp' = NoExp      \* an assignment lists a deleted policy (KF-C10-delpol-assigned): not judged
          /\ UNCHANGED <<P, kf, via>> /\ last' = Trace[l]
 
